@@ -6,6 +6,7 @@ package main
 //	                             counters and completion flags sampled IMMEDIATELY after Close returns
 //	                             observation  calls=1,1,… done=1,1,…   | hang | panic
 //	closez <n> <errmask> <zmask> <seed>
+//	closef <n> <errmask> <seed>          Close after a start that failed in an application runner
 //	                             as `close`, but closer i (bit i of zmask; at most 8 bits) is a component of a ZERO-SIZE struct
 //	                             type (a distinct field-less type per such closer: a stateless closer that releases a process-wide
 //	                             resource). All such values share one address, so the container must not take the address of a
@@ -233,11 +234,26 @@ func newZC(i int) any {
 }
 
 // runCloseZ: n closer components; closer i is of a zero-size type iff bit i of zmask (only the first zcMax set bits count).
+// vFailRunner: an application runner that fails, so that Run returns an error AFTER every closer was created and wired
+type vFailRunner struct{}
+
+func (*vFailRunner) Naming() string { return "vfailrunner" }
+func (*vFailRunner) Run() error     { return errors.New("runner failed") }
+
 func runCloseZ(n int, mask, zmask, seed uint64, maxDelayMs int) hx.Case {
+	return runCloseG(n, mask, zmask, seed, maxDelayMs, false)
+}
+
+// runCloseG: `failedRun` = the start ends with a runner error before Close is called (scenario `closef`): the closers were
+// registered, created and wired during refresh, so Close still has to close every one of them exactly once
+func runCloseG(n int, mask, zmask, seed uint64, maxDelayMs int, failedRun bool) hx.Case {
 	concQuiet()
 	scn := fmt.Sprintf("close %d %d %d", n, mask, seed)
 	if zmask != 0 {
 		scn = fmt.Sprintf("closez %d %d %d %d", n, mask, zmask, seed)
+	}
+	if failedRun {
+		scn = fmt.Sprintf("closef %d %d %d", n, mask, seed)
 	}
 	rng := hx.NewRng(seed ^ 0xC105E)
 	closers := make([]*vCloser, n) // nil for the zero-size ones
@@ -277,7 +293,11 @@ func runCloseZ(n int, mask, zmask, seed uint64, maxDelayMs int) hx.Case {
 	}
 	a := app.NewApp()
 	var err error
-	if out := withWatchdog(20*time.Second, func() { err = a.Run(app.SetComponents(comps...), app.SetConfigLoader()) }); out != "" || err != nil {
+	if failedRun {
+		comps = append(comps, &vFailRunner{})
+		tags = append(tags, "after-failed-run")
+	}
+	if out := withWatchdog(20*time.Second, func() { err = a.Run(app.SetComponents(comps...), app.SetConfigLoader()) }); out != "" || (err != nil) != failedRun {
 		return hx.Case{Scn: scn, Obs: "run-" + out + "-failed", Oracle: "FAIL close-run-failed " + fmt.Sprint(err), Tags: tags}
 	}
 	calls := make([]int32, n)
@@ -336,6 +356,8 @@ func closeCorpus(w *hx.Writer) {
 	w.Put(runCloseZ(3, 0, 7, 5, 5))      // three stateless closers of three field-less types (one address, three components)
 	w.Put(runCloseZ(6, 0x24, 0x2A, 6, 30)) // zero-size and ordinary closers mixed, one failing of each sort
 	w.Put(runCloseZ(8, 0xFF, 0xFF, 7, 0)) // eight zero-size closers, all failing, no delays
+	w.Put(runCloseG(3, 2, 0, 8, 5, true))  // Close after a start that failed in a runner: the closers exist and are closed
+	w.Put(runCloseG(1, 0, 0, 9, 0, true))
 }
 
 func closeGen(rng *hx.Rng, n int, tier string, w *hx.Writer) {
@@ -369,6 +391,10 @@ func closeGen(rng *hx.Rng, n int, tier string, w *hx.Writer) {
 					zmask |= 1 << uint(j)
 				}
 			}
+		}
+		if zmask == 0 && r.P(1, 6) {
+			w.Put(runCloseG(nc, mask, 0, sd, 30, true))
+			continue
 		}
 		w.Put(runCloseZ(nc, mask, zmask, sd, 30))
 	}
@@ -564,6 +590,8 @@ func runLine(scn string, closeDelayMs int) hx.Case {
 	switch {
 	case len(f) == 4 && f[0] == "close":
 		return runClose(int(num(1)), num(2), num(3), closeDelayMs)
+	case len(f) == 4 && f[0] == "closef":
+		return runCloseG(int(num(1)), num(2), 0, num(3), closeDelayMs, true)
 	case len(f) == 5 && f[0] == "closez":
 		return runCloseZ(int(num(1)), num(2), num(3), num(4), closeDelayMs)
 	case len(f) == 4 && f[0] == "scan":
